@@ -15,6 +15,7 @@ import (
 	"net/http"
 	"net/http/httptest"
 	"path/filepath"
+	"strconv"
 	"strings"
 	"time"
 
@@ -223,9 +224,33 @@ func c10NtlmParse(env *runEnv, r *rand.Rand) {
 	neg, _ := cl.GenerateNegotiateMessage()
 	negB := neg.Bytes()
 	n := 0
+	wedged := false
+	// every call is bounded: a verifier that stops answering is a finding, not a hang of the check
+	bounded := func(f func() string) string {
+		ch := make(chan string, 1)
+		go func() { ch <- guarded(f) }()
+		select {
+		case o := <-ch:
+			return o
+		case <-time.After(3 * time.Second):
+			return "no-answer-within-3s"
+		}
+	}
+	honest := func(sess string) string {
+		return bounded(func() string {
+			res, err := srv.Authenticate(&auth.NtlmRequest{Session: sess, NtlmMessage: base64.StdEncoding.EncodeToString(negB)})
+			if err != nil || res == nil || res.NtlmMessage == "" {
+				return "honest-client-refused"
+			}
+			return "alive"
+		})
+	}
 	try := func(label string, sess string, msg []byte, second bool) {
 		n++
-		obs := guarded(func() string {
+		if wedged {
+			return
+		}
+		obs := bounded(func() string {
 			if second {
 				// a well-formed first leg so that the hostile message is parsed as the authenticate message
 				srv.Authenticate(&auth.NtlmRequest{Session: sess, NtlmMessage: base64.StdEncoding.EncodeToString(negB)})
@@ -236,9 +261,23 @@ func c10NtlmParse(env *runEnv, r *rand.Rand) {
 			}
 			return "alive"
 		})
+		// the service must still serve an honest client of another session
+		if obs == "alive" && n%16 == 0 {
+			if h := honest(fmt.Sprintf("honest-%d", n)); h != "alive" {
+				obs = "after-this-message-" + h
+			}
+		}
+		if strings.Contains(obs, "no-answer") {
+			wedged = true
+		}
 		env.count("c10.ntlmparse." + obs)
 		env.emit("alive", fmt.Sprintf("ntlm-verifier:%s:%s", label, hx(msg)), obs)
 	}
+	defer func() {
+		if !wedged {
+			env.emit("alive", "ntlm-verifier:honest-client-after-all-hostile-messages", honest("honest-final"))
+		}
+	}()
 	// an authenticate message for a challenge that was never issued to these sessions
 	chal := selfChallenge()
 	cm, _ := ntlm.ParseChallengeMessage(chal)
@@ -523,9 +562,42 @@ func c10Binary(env *runEnv, r *rand.Rand) {
 	}
 }
 
+// c10Fragments: packets delivered in two reads whose sizes sweep the defragmenter's scratch
+// buffer (4096): the second read alone, or both together, exceed it.
+func c10Fragments(env *runEnv, r *rand.Rand) {
+	e := newL1Env(1)
+	all := [4]bool{true, true, true, true}
+	cfg := procCfg{hostCb: true}
+	for _, total := range []int{100, 4090, 4096, 4097, 4104, 8000, 12000} {
+		for _, first := range []int{1, 4, 7, 8, 9, 100, 4000, 4088, 4095, 4096} {
+			if first >= total+10 {
+				continue
+			}
+			big := packet(ptData, dataBody(randBytes(r, total)))
+			if first >= len(big) {
+				continue
+			}
+			items := []item{
+				{data: packet(ptHandshake, handshakeBody(1, 0, 0, 0)), ans: all},
+				{data: packet(ptTunnelCreate, tunnelCreateBody(0, "", false)), ans: all},
+				{data: packet(ptTunnelAuth, tunnelAuthBody("pc")), ans: all},
+				{data: packet(ptChannelCreate, channelCreateBody("127.0.0.1", e.pool[0].port)), ans: all},
+				{data: big[:first], ans: all},
+				{data: big[first:], ans: all},
+				{data: packet(ptCloseChannel, nil), ans: all},
+				{eof: true},
+			}
+			res := e.runProcess(cfg, items)
+			env.count("c10.fragments")
+			env.emit("process", cfg.bits(), redirBits(cfg.redir), strconv.Itoa(cfg.idle), e.live(), itemsString(items), res.obs)
+		}
+	}
+}
+
 func streamC10(env *runEnv) {
 	r := rand.New(rand.NewSource(env.seed))
 	c10Headers(env, r)
+	c10Fragments(env, r)
 	c10Utf16(env, r)
 	c10AuthPayload(env, r)
 	c10NtlmParse(env, r)
